@@ -39,6 +39,7 @@ func allProps() []*PropSpec {
 		propC14(),
 		propC10(),
 		propC09(),
+		propC03(),
 	}
 }
 
@@ -227,6 +228,7 @@ func propC10() *PropSpec {
 			js = append(js, jobsN("css", "VerifCSSTotal", pick(rng(0, 2), rng(0, 3)), "css.Minify(arbitrary bytes)")...)
 			js = append(js, jobsN("html", "VerifHTMLTotal", pick(rng(0, 3), rng(0, 4)), "html.Minify(arbitrary bytes)")...)
 			js = append(js, jobsN("svg", "VerifSVGTotal", pick(rng(0, 4), rng(0, 5)), "svg.Minify(arbitrary bytes)")...)
+			js = append(js, jobsN("html", "VerifHTMLAttrURL", pick(rng(4, 6), rng(4, 7)), "html: <tag urlattr=\"V\">, V = n bytes over a URL-scheme alphabet (panic freedom on template-shaped input)")...)
 			js = append(js, jobsN("js", "VerifJSTotal", pick(rng(0, 2), rng(0, 3)), "js.Minify(arbitrary bytes)")...)
 			js = append(js, Job{Pkg: ".", Fn: "VerifTotalTwin", N: 2, ExpectFail: true, Desc: "vacuity twin: an index panic must be reported"})
 			return js
@@ -260,6 +262,33 @@ func propC09() *PropSpec {
 			js = append(js, jobsN("html", "VerifHTMLReaccept", pick(rng(0, 3), rng(0, 3)), "html: accepted => output accepted again (arbitrary bytes)")...)
 			js = append(js, jobsN("js", "VerifJSReaccept", pick(rng(0, 2), rng(0, 3)), "js: accepted => output accepted again (arbitrary bytes)")...)
 			js = append(js, Job{Pkg: "json", Fn: "VerifJSONTwin", N: 3, ExpectFail: true, Desc: "vacuity twin"})
+			return js
+		},
+	}
+}
+
+func propC03() *PropSpec {
+	return &PropSpec{
+		ID:   "C03",
+		Rule: "one case = one feasible path of html.Minify (real parse/v2/html lexer, TokenBuffer, tables, EscapeAttrVal, entity replacement) on a template with symbolic holes + reference start-tag tokenizer / character-reference decoder / rendered-word-stream oracle; non-trivial = completes with a distinct symbolic output",
+		Assumptions: []string{"templates: <tag attr=QVQ>t ; T1<X>T2</X>T3 (inside the parent its content model requires) ; <pre>/<textarea>", "hole alphabets as stated in harness/html/*.go; named references restricted to amp lt gt quot apos", "empty registry (embedded CSS/JS is only trimmed)", "word-stream oracle: inline boundaries transparent, block boundaries and <br> separate, img/button are objects"},
+		Outside:     []string{"full HTML5 tree construction (adoption agency, foster parenting, optional start tags, tables): only the rendered-word-stream and attribute clauses are decided", "optional-tag omission contexts beyond one element inside its parent", "documents beyond the templates", "template delimiters"},
+		Stubs:       []string{"fmt native on concrete args", "parse.NewError opaque"},
+		Jobs: func(tier string) []Job {
+			var js []Job
+			q := tier == "quick"
+			pick := func(a, b []int) []int {
+				if q {
+					return a
+				}
+				return b
+			}
+			js = append(js, jobsN("html", "VerifHTMLAttrRaw", pick(rng(0, 3), rng(0, 4)), "<tag attr=QVQ>: V = n bytes over the quoting alphabet, 3 quoting styles x 8 attributes x 2 tags x KeepQuotes/KeepDefaultAttrVals")...)
+			js = append(js, jobsN("html", "VerifHTMLAttrUnits", pick(rng(1, 2), rng(1, 2)), "V = n units out of 20 character references / quotes / separators")...)
+			js = append(js, jobsN("html", "VerifHTMLAttrURL", pick(rng(4, 6), rng(4, 7)), "URL attributes: scheme handling")...)
+			js = append(js, jobsN("html", "VerifHTMLText", pick(rng(1, 2), rng(1, 2)), "T1<X>T2</X>T3 for 13 element kinds, KeepWhitespace/KeepEndTags symbolic: rendered word sequence")...)
+			js = append(js, jobsN("html", "VerifHTMLPre", pick(rng(0, 3), rng(0, 5)), "pre/textarea content untouched")...)
+			js = append(js, Job{Pkg: "html", Fn: "VerifHTMLTwin", N: 0, ExpectFail: true, Desc: "vacuity twin"})
 			return js
 		},
 	}
